@@ -14,6 +14,7 @@ import (
 	"os"
 	"path/filepath"
 	"strings"
+	"sync"
 	"sync/atomic"
 
 	"github.com/cloudwego/hertz/pkg/app"
@@ -183,13 +184,34 @@ var reqEntries = []reqEntry{
 	}, true},
 }
 
-var attachFile string
+var (
+	attachMu   sync.Mutex
+	attachDir  string
+	attachPath string
+)
 
-func init() {
-	dir, err := os.MkdirTemp("", "verif-c05-")
-	if err == nil {
-		attachFile = filepath.Join(dir, "f.txt")
-		os.WriteFile(attachFile, []byte("x"), 0o644) //nolint:errcheck
+// attachFile: the one-byte file of the FileAttachment entry, created at its first use (not at program start: the
+// binary also runs as the short-lived worker process of other checks) and removed when the run or replay ends
+func attachFile() string {
+	attachMu.Lock()
+	defer attachMu.Unlock()
+	if attachPath == "" {
+		dir, err := os.MkdirTemp("", "verif-c05-")
+		if err == nil {
+			attachDir = dir
+			attachPath = filepath.Join(dir, "f.txt")
+			os.WriteFile(attachPath, []byte("x"), 0o644) //nolint:errcheck
+		}
+	}
+	return attachPath
+}
+
+func removeAttachFile() {
+	attachMu.Lock()
+	defer attachMu.Unlock()
+	if attachDir != "" {
+		os.RemoveAll(attachDir) //nolint:errcheck
+		attachDir, attachPath = "", ""
 	}
 }
 
@@ -344,7 +366,7 @@ var respEntries = []respEntry{
 		return map[string]int{"location": 1}
 	}, false},
 	{"RequestContext.FileAttachment/filename", func(ctx *app.RequestContext, p string) map[string]int {
-		ctx.FileAttachment(attachFile, p)
+		ctx.FileAttachment(attachFile(), p)
 		return map[string]int{"content-disposition": 1, "last-modified": 1, "accept-ranges": 1}
 	}, false},
 	{"ResponseHeader.Set(Trailer)", func(ctx *app.RequestContext, p string) map[string]int {
@@ -638,6 +660,7 @@ func payloads(maxLen int) []string {
 }
 
 func run(c *mc.Ctx) {
+	defer removeAttachFile()
 	n := 3
 	if c.Thorough() {
 		n = 4
@@ -683,6 +706,7 @@ func run(c *mc.Ctx) {
 }
 
 func replay(c *mc.Ctx, raw json.RawMessage) {
+	defer removeAttachFile()
 	var cs Case
 	if json.Unmarshal(raw, &cs) != nil {
 		return
